@@ -19,6 +19,10 @@ class Outside(Exception):
 	"""The tree uses something the common language does not cover (or a shape the grammar cannot produce)."""
 
 
+class NotCommon(Outside):
+	"""A shape py_gram.lark CAN produce but CPython has no counterpart for (`def f() -> :`, `a[1:2:3:4]`): not comparable, not a defect."""
+
+
 # ---------------------------------------------------------------------------------------------
 # tranp side
 
@@ -88,9 +92,14 @@ def t_expr(t: Any) -> Any:
 		if name == 'none':
 			return ('const', 'None')
 		if name == 'digit':
+			if not body.isascii() or not body.isdigit():
+				raise Outside(f'digit token with text {body!r}')
 			return ('const', repr(int(body)))
 		if name == 'decimal':
-			return ('const', repr(float(body)))
+			try:
+				return ('const', repr(float(body)))
+			except ValueError as e:
+				raise Outside(f'decimal token with text {body!r}') from e
 		if name == 'string':
 			try:
 				return ('const', repr(ast.literal_eval(body)))
@@ -166,7 +175,7 @@ def _slice(parts: list[Any]) -> Any:
 		return ('slice', parts[0], parts[1], None)
 	if len(parts) == 3:
 		return ('slice', parts[0], parts[1], parts[2])
-	raise Outside(f'slice with {len(parts)} parts')
+	raise NotCommon(f'slice with {len(parts)} parts')
 
 
 def _t_block(t: Any) -> list[Any]:
@@ -215,7 +224,7 @@ def t_stmt(t: Any) -> Any:
 					raise Outside('param shape')
 				params.append((p[1][0][1], _t_type(p[1][1]), None if p[1][2] == ('__empty__', '') else t_expr(p[1][2])))
 		if body[2] == ('__empty__', ''):
-			raise Outside('function without return type')
+			raise NotCommon('function without return type')
 		return ('def', body[0][1], params, _t_type(body[2]), _t_block(body[3]))
 	if name == 'if' and len(body) >= 2:
 		then = body[0]
@@ -250,7 +259,12 @@ def t_stmt(t: Any) -> Any:
 def canon_tranp(tree: Any) -> Any:
 	if tree[0] != 'entry' or isinstance(tree[1], str):
 		raise Outside('entry shape')
-	return [t_stmt(s) for s in tree[1]]
+	try:
+		return [t_stmt(s) for s in tree[1]]
+	except Outside:
+		raise
+	except Exception as e:  # noqa: BLE001 - the tree comes from the code under test
+		raise Outside(f'unreadable tree ({type(e).__name__}: {e})') from e
 
 
 # ---------------------------------------------------------------------------------------------
